@@ -14,7 +14,8 @@ TECHNIQUE = ('bounded exhaustive enumeration of (index spec, source shape, flat 
              'as reference model; exhaustive array2slice over all short integer arrays')
 RULE = ('every index spec of the grammar (ints, slices with start/stop/step over the full axis range, '
         'integer lists, tuples, ellipsis, chains of two indexers) x every shape in the bound x '
-        'flat/non-flat x two construction paths; non-trivial = accepted by NumPy and OpenMDAO, '
+        'flat/non-flat x three construction paths (constructor, set_src_shape, re-shape of an '
+        'already resolved object); non-trivial = accepted by NumPy and OpenMDAO, '
         'selects >= 2 entries and is not the identity selection; each (spec, shape, flat) is '
         'enumerated once')
 LEVEL_TEXT = ('Every index spec of a bounded grammar is applied to every source shape within the bound '
@@ -278,6 +279,17 @@ def check_single(shape, flat, idx, path='ctor'):
             warnings.simplefilter('ignore')
             if path == 'ctor':
                 ix = indexer(idx, src_shape=shape, flat_src=flat)
+            elif path == 'reshape':
+                # history: the same index object is first given (and resolved against) a larger
+                # source shape, then the shape under test
+                ix = indexer(idx, flat_src=flat)
+                try:
+                    ix.set_src_shape(tuple(n + 1 for n in shape))
+                    ix.shaped_array()
+                    ix.indexed_src_shape
+                except Exception:
+                    pass
+                ix.set_src_shape(shape)
             else:
                 ix = indexer(idx, flat_src=flat)
                 ix.set_src_shape(shape)
@@ -531,7 +543,7 @@ def check_case(case):
             if k in seen:
                 continue
             seen.add(k)
-            for path in ('ctor', 'set_src_shape'):
+            for path in ('ctor', 'set_src_shape', 'reshape'):
                 add(*check_single(shape, flat, idx, path))
             if isinstance(idx, list) or (isinstance(idx, np.ndarray) and idx.ndim == 1):
                 ev, vio = check_try_slice(shape, flat, list(np.asarray(idx).tolist()))
